@@ -275,3 +275,185 @@ Print Assumptions llt_failure_means_small_pivot.
    evaluates the real instance on a 2x2 input that needs a row exchange (plu_2x2_swap), on
    symmetric 2x2 inputs (ldl_2x2, llt_2x2) and on failing inputs (plu_2x2_duplicate_rows_fails,
    ldl_2x2_zero_pivot_fails, llt_1x1_nonpositive_fails). *)
+
+(* ============================================================ rounding model: the triangular solves
+   The theorems above are exact-arithmetic statements.  The ones below are about the SAME Gallina model instantiated
+   with [Rnd8_ops rnd tiny] (coq/C08/RoundSolve.v): every add/sub/mul/div is the exact real operation followed by a
+   rounding function rnd, assumed only to satisfy the standard model of floating-point arithmetic with gradual underflow
+       std_model rnd eps eta :  |rnd x - x| <= eps |x| + eta,  rnd 0 = 0,  0 <= eps < 1/4,  0 <= eta
+   (coq/Common/RoundOps.v; IEEE binary64 round-to-nearest-even satisfies it with eps = 2^-53, eta = 2^-1075 by Flocq,
+   coq/Common/RoundFlocq.v std_model_binary64; overflow is outside the model).  For EVERY order n they give the classical
+   result (Higham, Accuracy and Stability of Numerical Algorithms, Thm 8.5): the computed solution of a triangular system has a
+   componentwise residual of at most gamma_k (|T||x^|) + O(n) eta with k <= n, equivalently it solves a system with
+   componentwise perturbed matrix (T + dT), |dT| <= gamma_k |T|, exactly (up to a right-hand-side perturbation
+   O(n) eta due to underflow, 0 when eta = 0).
+       gamma eps k = k eps / (1 - k eps)                     isum f lo hi = sum_{lo <= j < hi} f j
+   SCOPE.  Only the substitutions (a_real_plu_lower/upper, a_real_ldl_lower/upper, a_real_llt_lower/upper and their
+   compositions a_real_plu_solve / ldl_solve / llt_solve for GIVEN factors) are covered.  The backward error of the
+   factorisations themselves (|PA - LU| <= gamma_n |L||U| etc.), hence of solve/inverse with respect to the ORIGINAL
+   matrix A, stays measured by the exact-rational oracle: the _partial suffixes above remain. *)
+From LibaV Require Import Common.RoundOps Common.RoundFlocq C08.RoundSolve C08.RoundSolve64.
+
+(* unit lower triangular forward substitution (a_real_plu_lower = a_real_ldl_lower), row r: gamma_r *)
+Theorem C08_lower_solve_backward_error : forall rnd eps eta tiny, std_model rnd eps eta ->
+  forall n (L b : list R), length L = (n * n)%nat -> length b = n -> INR n * eps < 1 ->
+  exists yh, plu_lower (Rnd8_ops rnd tiny) n L b = Some yh /\ length yh = n /\
+    forall r, (r < n)%nat ->
+      Rabs (nth r b 0 - (rsum (fun c => mg n L r c * nth c yh 0) r + nth r yh 0))
+      <= gamma eps r * (rsum (fun c => Rabs (mg n L r c) * Rabs (nth c yh 0)) r + Rabs (nth r yh 0))
+         + 3 * INR r * (1 + gamma eps r) * eta.
+Proof. exact C08.RoundSolve.lower_solve_backward_error. Qed.
+Print Assumptions C08_lower_solve_backward_error.
+
+(* upper triangular back substitution with division by the diagonal (a_real_plu_upper), row r: gamma_(n-r) *)
+Theorem C08_upper_solve_backward_error : forall rnd eps eta tiny, std_model rnd eps eta ->
+  forall n (U b : list R), length U = (n * n)%nat -> length b = n ->
+  (forall r, (r < n)%nat -> mg n U r r <> 0) -> INR n * eps < 1 ->
+  exists xh, plu_upper (Rnd8_ops rnd tiny) n U b = Some xh /\ length xh = n /\
+    forall r, (r < n)%nat ->
+      Rabs (nth r b 0 - isum (fun c => mg n U r c * nth c xh 0) r n)
+      <= gamma eps (n - r) * isum (fun c => Rabs (mg n U r c) * Rabs (nth c xh 0)) r n
+         + (3 * INR (n - r) + Rabs (mg n U r r)) * (1 + gamma eps (n - r)) * eta.
+Proof. exact C08.RoundSolve.upper_solve_backward_error. Qed.
+Print Assumptions C08_upper_solve_backward_error.
+
+(* the same two results as statements about a perturbed system solved EXACTLY:
+   (L + dL) y^ = b + db  with unit-diagonal L (the diagonal 1 is perturbed to 1 + dL r r),  (U + dU) x^ = b + db *)
+Theorem C08_lower_solve_perturbed_system : forall rnd eps eta tiny, std_model rnd eps eta ->
+  forall n (L b : list R), length L = (n * n)%nat -> length b = n -> INR n * eps < 1 ->
+  exists yh (dL : nat -> nat -> R) (db : nat -> R), plu_lower (Rnd8_ops rnd tiny) n L b = Some yh /\ length yh = n /\
+    forall r, (r < n)%nat ->
+      (forall c, (c < r)%nat -> Rabs (dL r c) <= gamma eps r * Rabs (mg n L r c)) /\
+      Rabs (dL r r) <= gamma eps r /\
+      Rabs (db r) <= 3 * INR r * (1 + gamma eps r) * eta /\
+      rsum (fun c => (mg n L r c + dL r c) * nth c yh 0) r + (1 + dL r r) * nth r yh 0 = nth r b 0 + db r.
+Proof. exact C08.RoundSolve.lower_solve_perturbed. Qed.
+Print Assumptions C08_lower_solve_perturbed_system.
+
+Theorem C08_upper_solve_perturbed_system : forall rnd eps eta tiny, std_model rnd eps eta ->
+  forall n (U b : list R), length U = (n * n)%nat -> length b = n ->
+  (forall r, (r < n)%nat -> mg n U r r <> 0) -> INR n * eps < 1 ->
+  exists xh (dU : nat -> nat -> R) (db : nat -> R), plu_upper (Rnd8_ops rnd tiny) n U b = Some xh /\ length xh = n /\
+    forall r, (r < n)%nat ->
+      (forall c, (r <= c)%nat -> Rabs (dU r c) <= gamma eps (n - r) * Rabs (mg n U r c)) /\
+      Rabs (db r) <= (3 * INR (n - r) + Rabs (mg n U r r)) * (1 + gamma eps (n - r)) * eta /\
+      isum (fun c => (mg n U r c + dU r c) * nth c xh 0) r n = nth r b 0 + db r.
+Proof. exact C08.RoundSolve.upper_solve_perturbed. Qed.
+Print Assumptions C08_upper_solve_perturbed_system.
+
+(* the Cholesky substitutions: L y = b (a_real_llt_lower, row r: gamma_(r+1)) and L^T x = y (a_real_llt_upper, the
+   column of L walked with stride n, row c: gamma_(n-c)) *)
+Theorem C08_llt_lower_solve_backward_error : forall rnd eps eta tiny, std_model rnd eps eta ->
+  forall n (L b : list R), length L = (n * n)%nat -> length b = n ->
+  (forall r, (r < n)%nat -> mg n L r r <> 0) -> INR n * eps < 1 ->
+  exists yh, llt_lower (Rnd8_ops rnd tiny) n L b = Some yh /\ length yh = n /\
+    forall r, (r < n)%nat ->
+      Rabs (nth r b 0 - rsum (fun c => mg n L r c * nth c yh 0) (S r))
+      <= gamma eps (S r) * rsum (fun c => Rabs (mg n L r c) * Rabs (nth c yh 0)) (S r)
+         + (3 * INR (S r) + Rabs (mg n L r r)) * (1 + gamma eps (S r)) * eta.
+Proof. exact C08.RoundSolve.llt_lower_solve_backward_error. Qed.
+Print Assumptions C08_llt_lower_solve_backward_error.
+
+Theorem C08_llt_upper_solve_backward_error : forall rnd eps eta tiny, std_model rnd eps eta ->
+  forall n (L b : list R), length L = (n * n)%nat -> length b = n ->
+  (forall r, (r < n)%nat -> mg n L r r <> 0) -> INR n * eps < 1 ->
+  exists xh, llt_upper (Rnd8_ops rnd tiny) n L b = Some xh /\ length xh = n /\
+    forall c, (c < n)%nat ->
+      Rabs (nth c b 0 - isum (fun r => mg n L r c * nth r xh 0) c n)
+      <= gamma eps (n - c) * isum (fun r => Rabs (mg n L r c) * Rabs (nth r xh 0)) c n
+         + (3 * INR (n - c) + Rabs (mg n L c c)) * (1 + gamma eps (n - c)) * eta.
+Proof. exact C08.RoundSolve.llt_upper_solve_backward_error. Qed.
+Print Assumptions C08_llt_upper_solve_backward_error.
+
+(* D L^T x = y as a_real_ldl_upper computes it (x_c /= d_c FIRST, then the subtractions), row c: gamma_(n-c) *)
+Theorem C08_ldl_upper_solve_backward_error : forall rnd eps eta tiny, std_model rnd eps eta ->
+  forall n (L b : list R), length L = (n * n)%nat -> length b = n ->
+  (forall r, (r < n)%nat -> mg n L r r <> 0) -> INR n * eps < 1 ->
+  exists xh, ldl_upper (Rnd8_ops rnd tiny) n L b = Some xh /\ length xh = n /\
+    forall c, (c < n)%nat ->
+      Rabs (nth c b 0 - mg n L c c * (nth c xh 0 + isum (fun r => mg n L r c * nth r xh 0) (c + 1) n))
+      <= Rabs (mg n L c c) *
+         (gamma eps (n - c) * (Rabs (nth c xh 0) + isum (fun r => Rabs (mg n L r c) * Rabs (nth r xh 0)) (c + 1) n)
+          + 3 * INR (n - c) * (1 + gamma eps (n - c)) * eta).
+Proof. exact C08.RoundSolve.ldl_upper_solve_backward_error. Qed.
+Print Assumptions C08_ldl_upper_solve_backward_error.
+
+(* a_real_plu_solve on GIVEN in-place factors A (strict lower part = L, upper part = U) and permutation vector p:
+   L y^ = P b and U x^ = y^ each to within its backward error *)
+Theorem C08_plu_solve_stages_backward_error : forall rnd eps eta tiny, std_model rnd eps eta ->
+  forall n (A : list R) (p : list nat) (b x0 Pb : list R),
+  length A = (n * n)%nat -> plu_apply n p b x0 = Some Pb -> length Pb = n ->
+  (forall r, (r < n)%nat -> mg n A r r <> 0) -> INR n * eps < 1 ->
+  exists yh xh, plu_lower (Rnd8_ops rnd tiny) n A Pb = Some yh /\
+    plu_solve (Rnd8_ops rnd tiny) n A p b x0 = Some xh /\ length xh = n /\
+    (forall r, (r < n)%nat ->
+      Rabs (nth r Pb 0 - (rsum (fun c => mg n A r c * nth c yh 0) r + nth r yh 0))
+      <= gamma eps r * (rsum (fun c => Rabs (mg n A r c) * Rabs (nth c yh 0)) r + Rabs (nth r yh 0))
+         + 3 * INR r * (1 + gamma eps r) * eta) /\
+    (forall r, (r < n)%nat ->
+      Rabs (nth r yh 0 - isum (fun c => mg n A r c * nth c xh 0) r n)
+      <= gamma eps (n - r) * isum (fun c => Rabs (mg n A r c) * Rabs (nth c xh 0)) r n
+         + (3 * INR (n - r) + Rabs (mg n A r r)) * (1 + gamma eps (n - r)) * eta).
+Proof. exact C08.RoundSolve.plu_solve_backward_error. Qed.
+Print Assumptions C08_plu_solve_stages_backward_error.
+
+(* a_real_ldl_solve on GIVEN in-place factors: L y^ = b, D L^T x^ = y^ *)
+Theorem C08_ldl_solve_stages_backward_error : forall rnd eps eta tiny, std_model rnd eps eta ->
+  forall n (A b : list R), length A = (n * n)%nat -> length b = n ->
+  (forall r, (r < n)%nat -> mg n A r r <> 0) -> INR n * eps < 1 ->
+  exists yh xh, ldl_lower (Rnd8_ops rnd tiny) n A b = Some yh /\
+    ldl_solve (Rnd8_ops rnd tiny) n A b = Some xh /\ length xh = n /\
+    (forall r, (r < n)%nat ->
+      Rabs (nth r b 0 - (rsum (fun c => mg n A r c * nth c yh 0) r + nth r yh 0))
+      <= gamma eps r * (rsum (fun c => Rabs (mg n A r c) * Rabs (nth c yh 0)) r + Rabs (nth r yh 0))
+         + 3 * INR r * (1 + gamma eps r) * eta) /\
+    (forall c, (c < n)%nat ->
+      Rabs (nth c yh 0 - mg n A c c * (nth c xh 0 + isum (fun r => mg n A r c * nth r xh 0) (c + 1) n))
+      <= Rabs (mg n A c c) *
+         (gamma eps (n - c) * (Rabs (nth c xh 0) + isum (fun r => Rabs (mg n A r c) * Rabs (nth r xh 0)) (c + 1) n)
+          + 3 * INR (n - c) * (1 + gamma eps (n - c)) * eta)).
+Proof. exact C08.RoundSolve.ldl_solve_backward_error. Qed.
+Print Assumptions C08_ldl_solve_stages_backward_error.
+
+(* a_real_llt_solve on a GIVEN in-place Cholesky factor: L y^ = b, L^T x^ = y^ *)
+Theorem C08_llt_solve_stages_backward_error : forall rnd eps eta tiny, std_model rnd eps eta ->
+  forall n (A b : list R), length A = (n * n)%nat -> length b = n ->
+  (forall r, (r < n)%nat -> mg n A r r <> 0) -> INR n * eps < 1 ->
+  exists yh xh, llt_lower (Rnd8_ops rnd tiny) n A b = Some yh /\
+    llt_solve (Rnd8_ops rnd tiny) n A b = Some xh /\ length xh = n /\
+    (forall r, (r < n)%nat ->
+      Rabs (nth r b 0 - rsum (fun c => mg n A r c * nth c yh 0) (S r))
+      <= gamma eps (S r) * rsum (fun c => Rabs (mg n A r c) * Rabs (nth c yh 0)) (S r)
+         + (3 * INR (S r) + Rabs (mg n A r r)) * (1 + gamma eps (S r)) * eta) /\
+    (forall c, (c < n)%nat ->
+      Rabs (nth c yh 0 - isum (fun r => mg n A r c * nth r xh 0) c n)
+      <= gamma eps (n - c) * isum (fun r => Rabs (mg n A r c) * Rabs (nth r xh 0)) c n
+         + (3 * INR (n - c) + Rabs (mg n A c c)) * (1 + gamma eps (n - c)) * eta).
+Proof. exact C08.RoundSolve.llt_solve_backward_error. Qed.
+Print Assumptions C08_llt_solve_stages_backward_error.
+
+(* IEEE binary64 (u = eps64 = 2^-53, eta64 = 2^-1075), every order n < 2^53 *)
+Theorem C08_lower_solve_binary64 : forall tiny n (L b : list R),
+  length L = (n * n)%nat -> length b = n -> (Z.of_nat n < 2 ^ 53)%Z ->
+  exists yh, plu_lower (Rnd8_ops rnd64 tiny) n L b = Some yh /\ length yh = n /\
+    forall r, (r < n)%nat ->
+      Rabs (nth r b 0 - (rsum (fun c => mg n L r c * nth c yh 0) r + nth r yh 0))
+      <= gamma eps64 r * (rsum (fun c => Rabs (mg n L r c) * Rabs (nth c yh 0)) r + Rabs (nth r yh 0))
+         + 3 * INR r * (1 + gamma eps64 r) * eta64.
+Proof. exact C08.RoundSolve64.lower_solve_binary64. Qed.
+Print Assumptions C08_lower_solve_binary64.
+
+Theorem C08_upper_solve_binary64 : forall tiny n (U b : list R),
+  length U = (n * n)%nat -> length b = n -> (forall r, (r < n)%nat -> mg n U r r <> 0) -> (Z.of_nat n < 2 ^ 53)%Z ->
+  exists xh, plu_upper (Rnd8_ops rnd64 tiny) n U b = Some xh /\ length xh = n /\
+    forall r, (r < n)%nat ->
+      Rabs (nth r b 0 - isum (fun c => mg n U r c * nth c xh 0) r n)
+      <= gamma eps64 (n - r) * isum (fun c => Rabs (mg n U r c) * Rabs (nth c xh 0)) r n
+         + (3 * INR (n - r) + Rabs (mg n U r r)) * (1 + gamma eps64 (n - r)) * eta64.
+Proof. exact C08.RoundSolve64.upper_solve_binary64. Qed.
+Print Assumptions C08_upper_solve_binary64.
+
+(* non-vacuity of the rounding-model theorems: std_model is inhabited by the identity (std_model_id; then the bounds
+   collapse to residual = 0: RoundSolve.lower_solve_id_exact / upper_solve_id_exact), by the inexact rounding
+   v -> v (1 + 1/8) (std_model_scale; RoundSolve.lower_2x2_scale / upper_2x2_scale evaluate 2x2 systems whose computed
+   solution has a non-zero residual below the bound) and by binary64 (std_model_binary64). *)
